@@ -1574,7 +1574,7 @@ void Handler::handleIdentifiedArg( detail::TypedArgBase* hdl,
                                    const string& value)
 {
 
-   mConstraints.argumentIdentified( key);
+   mConstraints.argumentIdentified( hdl->key());
    executeGlobalConstraints( hdl->key());
 
    if (mVerbose)
